@@ -30,9 +30,9 @@ func c07Clients(jarReq1 bool) []ClientSpec {
 	allResp := []string{"code", "token", "id_token", "id_token token", "code id_token", "code token", "code id_token token"}
 	return []ClientSpec{
 		{ID: 1, Grants: []string{"authorization_code", "refresh_token", "implicit"}, RespTypes: allResp,
-			Redirects: []string{"https://c1.example/cb", "https://c1.example/cb2"}, Scopes: "openid email profile", JarReq: jarReq1},
+			Redirects: []string{"https://c1.example/cb", "https://c1.example/cb2", "https://shared.example/cb"}, Scopes: "openid email profile", JarReq: jarReq1},
 		{ID: 2, Grants: []string{"authorization_code", "refresh_token"}, RespTypes: []string{"code"},
-			Redirects: []string{"https://c2.example/cb"}, Scopes: "openid email"},
+			Redirects: []string{"https://c2.example/cb", "https://shared.example/cb"}, Scopes: "openid email"},
 		{ID: 5, Grants: []string{"urn:openid:params:grant-type:ciba", "refresh_token"}, Scopes: "openid email", CibaMode: "poll"},
 	}
 }
@@ -522,6 +522,9 @@ func init() {
 					var op JOp
 					if r.Intn(3) != 0 {
 						o := baseRO(profile, client)
+						if r.Intn(2) == 0 {
+							o.Params.Redirect = "https://shared.example/cb"
+						}
 						if r.Intn(5) == 0 {
 							d := roDevs[r.Intn(len(roDevs))]
 							d.F(&o, client)
@@ -533,6 +536,9 @@ func init() {
 					} else {
 						op = mkPar(r, client, nil, "push-plain")
 						op.Base.Params = innerParams(profile, client)
+						if r.Intn(2) == 0 {
+							op.Base.Params.Redirect = "https://shared.example/cb"
+						}
 						if r.Intn(3) == 0 {
 							op.Base.Params.State = ""
 						}
